@@ -90,6 +90,12 @@ def run(ck):
                         "label numbers of everything behind it")
     from .c17 import frame_integrity as _fi04
     _fi04(ck, "C04.20")
+    ck.clause("C04.21", "a second-pass record is scored and reported in one frame: the fragments reach the aligner as they were cut (as "
+                        "C02.4) - a fragment re-based on its way reports label numbers and offsets of the fragment while Confidence was "
+                        "computed for them: recomputed against the whole molecule the pairs lie far off the seed diagonal")
+    if ck.wants("C04.21"):
+        from .c02 import fragments_reach_second_pass as _frsp04
+        _frsp04(ck, "C04.21")
     ck.clause("C04.17", "a record carries the query's length as it is (as C02.3's identity arguments): second-pass fragments are built with "
                         "that length, and reverse-strand coordinates are mirrored about it - a truncated length scores the fragment's "
                         "pairs in a frame shifted by the lost fraction")
